@@ -581,8 +581,9 @@ async def run_connect(subset, fault=None, delays=None, closes=None, lost=None):
                     conn["c"].open = False
                 elif "c" in conn:
                     async def closer():
-                        if close_mode == "late":
-                            await asyncio.sleep(0.3)
+                        if close_mode.startswith("late"):
+                            # the close takes (virtual) time: "late" = 0.3 s, "late:<seconds>"
+                            await asyncio.sleep(float(close_mode.split(":")[1]) if ":" in close_mode else 0.3)
                         conn["c"].open = False
                         if close_mode == "raise":
                             raise ConnectionResetError("connection reset while closing")
@@ -625,7 +626,8 @@ async def run_connect(subset, fault=None, delays=None, closes=None, lost=None):
         pending_at_return = len([t for t in asyncio.all_tasks() - before
                                  if not t.done() and t is not asyncio.current_task()])
         # drain: let everything that was started run to its end (virtual time)
-        await asyncio.sleep(max(delays + [0]) + 1.0)
+        close_times = [float(c.split(":")[1]) for c in closes if c.startswith("late:")]
+        await asyncio.sleep(max(delays + close_times + [0]) + 1.0)
         for _ in range(3):
             await asyncio.sleep(0)
         obs = {
@@ -745,23 +747,41 @@ class Rig:
 
         self.foreign_release = self.facade.takeover(Protocol.MRP, *[getattr(interface, IFACES[i]) for i in ifaces])
 
-    def call(self, op):
+    def call(self, op, args=None):
         """Coroutine for one operation of the real code.  op = ("stream", meta_given) or
-        ("play", local)."""
+        ("play", local).  `args` (JSON-able) sets the call's own ARGUMENT VALUES, including
+        ones that make the operation fail by themselves: play_url `position` (and other
+        kwargs), stream_file `metadata` ("bad" = a wrong type), `override`, extra kwargs,
+        `file` of an unsupported type ("__none__" stands for None)."""
         from pyatv.support.metadata import MediaMetadata
 
+        args = dict(args or {})
+        dec = lambda v: None if v == "__none__" else v
         if op[0] == "stream":
             md = MediaMetadata(title="t") if op[1] else None
-            return self.raop.stream_file("http://example.invalid/a.mp3", metadata=md)
+            if args.get("metadata") == "bad":
+                md = "not-a-metadata-object"
+            file = dec(args["file"]) if "file" in args else "http://example.invalid/a.mp3"
+            kw = {k: dec(v) for k, v in (args.get("kwargs") or {}).items()}
+            if "override" in args:
+                kw["override_missing_metadata"] = dec(args["override"])
+            return self.raop.stream_file(file, metadata=md, **kw)
         url = os.path.abspath(__file__) if op[1] else "http://example.invalid/a.mp4"
-        return self.airplay.play_url(url)
+        kw = {k: dec(v) for k, v in (args.get("kwargs") or {}).items()}
+        if "position" in args:
+            kw["position"] = dec(args["position"])
+        return self.airplay.play_url(url, **kw)
 
-    async def run_op(self, op, plan):
+    async def run_op(self, op, plan, args=None):
         """Run one operation under `plan` to its end; returns the outcome class."""
         from pyatv import exceptions
 
         self.world.plan = plan
-        task = plan.op_task = asyncio.ensure_future(self.call(op))
+        try:
+            coro = self.call(op, args)
+        except Exception as ex:      # the call itself rejects its arguments
+            return "err:" + type(ex).__name__
+        task = plan.op_task = asyncio.ensure_future(coro)
         try:
             await task
             out = "ok"
@@ -808,7 +828,7 @@ def stray(before):
     return out
 
 
-async def scenario_single(op, vol_known, fault_at, kind, foreign=(), raop_props=None):
+async def scenario_single(op, vol_known, fault_at, kind, foreign=(), raop_props=None, args=None):
     """One call with one fault (or none), optionally while a foreign protocol holds a
     takeover; then a fresh stream_file must be accepted."""
     rig = await Rig(vol_known, raop_props=raop_props).setup()
@@ -819,7 +839,7 @@ async def scenario_single(op, vol_known, fault_at, kind, foreign=(), raop_props=
         env = rig.world.ledger()
         ids0 = rig.world.open_ids()
         plan = Plan(fault_at, kind)
-        out = await rig.run_op(op, plan)
+        out = await rig.run_op(op, plan, args)
         obs = {"outcome": out, "env": env, "ledger": rig.world.ledger(), "points": plan.n, "names": plan.names,
                "untouched": all(x in rig.world.open_ids() for x in ids0), "stray_tasks": len(stray(before_tasks))}
         if rig.foreign_release:
@@ -939,7 +959,12 @@ def evaluate(case):
         op, vol = tuple(case["op"]), case["vol"]
         fault = tuple(case["fault"]) if case["fault"] else None
         obs = run_async(scenario_single(op, vol, fault[0] if fault else None, fault[1] if fault else "fail",
-                                        tuple(case["foreign"]), case.get("raop_props")))
+                                        tuple(case["foreign"]), case.get("raop_props"), case.get("args")))
+        a = case.get("args") or {}
+        if op[0] == "stream" and a.get("metadata") == "bad":
+            op = ("stream", True)       # some metadata object was passed: no get_metadata call ...
+        if op[0] == "stream" and a.get("override") is True and (op[1] or a.get("metadata")):
+            op = ("stream", False)      # ... unless override_missing_metadata asks for the file's metadata too
         if case.get("raop_props") is not None:
             # the model counterpart of "the helper raises on this TXT record": a failure at the
             # synchronous point of that helper
@@ -1103,6 +1128,11 @@ def compare(ctx, case, obs, answers):
         if m != impl:
             ctx.disagree(case, impl, ans, where=where)
 
+    if fam == "single" and case.get("args") is not None and (
+            obs["outcome"].startswith("err:") or args_key(case) in OWN_FAIL):
+        # the call's own arguments make it fail (at a place that is not a collaborator call): oracle only
+        ctx.note("args:own-failure:" + (obs["outcome"][4:] if obs["outcome"].startswith("err:") else "with-fault"))
+        return
     if fam == "connect" and case.get("lost") is not None:
         ctx.note("connect:lost-during-connect")     # early close by the device listener: oracle only
         return
@@ -1192,6 +1222,11 @@ def gen_cases(ctx):
                 cpats = [["raise" if j == 0 else "late" for j in range(m)],
                          ["late" if j == 0 else "raise" for j in range(m)],
                          [modes[crng.randint(0, 2)] for _ in range(m)]]
+                # durations of the close coroutines (virtual seconds): 0, 1, 4, 10, 60
+                durs = [0, 1, 4, 10, 60]
+                for d in (durs if (ctx.thorough or m <= 3) else [durs[(mask + k) % len(durs)], 60]):
+                    cpats.append([f"late:{d}" if j == (mask + d) % k else "sync" for j in range(m)])
+                cpats.append([f"late:{durs[(j + mask) % len(durs)]}" for j in range(m)])
                 for step in ((0, 3) if not ctx.thorough else range(len(CONNECT_STEPS))):
                     for cp in cpats:
                         cases.append({"family": "connect", "subset": subset, "fault": [k, step, "fail"],
@@ -1210,6 +1245,20 @@ def gen_cases(ctx):
                                          classes=(-1 if ctx.thorough else 3) if not foreign else 0, salt=salt)
             for f in faults:
                 cases.append({"family": "single", "op": list(op), "vol": c, "fault": f, "foreign": foreign})
+    #    ARGUMENT VALUES of the calls themselves, including ones that make the call fail on its own
+    play_args = [{"position": v} for v in (0, 5, "7", 2.5, -1, "1:30", "__none__", "", [1], 10 ** 30)] + \
+                [{"kwargs": {"foo": 1}}, {"kwargs": {"position": "x", "volume": 2}}]
+    stream_args = [{"metadata": "bad"}, {"metadata": "bad", "override": True}, {"override": True},
+                   {"override": "__none__"}, {"kwargs": {"foo": 1, "bar": "__none__"}}, {"file": "__none__"},
+                   {"file": 123}, {"file": ""}]
+    for op, c in variants():
+        for a in (play_args if op[0] == "play" else stream_args):
+            for foreign in ([], [3]):
+                cases.append({"family": "single", "op": list(op), "vol": c, "fault": None, "foreign": foreign, "args": a})
+            nm = names[key(op, c)]
+            k = (len(str(a)) + len(nm)) % len(nm)         # together with a collaborator failure somewhere
+            kind = "fail" if nm[k].startswith("sync:") or k % 2 else "cancel"
+            cases.append({"family": "single", "op": list(op), "vol": c, "fault": [k, kind], "foreign": [], "args": a})
     #    receivers whose TXT record makes helper parsing raise between two collaborator calls
     for props in ({"ft": "0X4A7FCA00,0xBC354BD0"}, {"features": "zz"}, {"ft": ""}):
         for op in (("stream", True), ("stream", False)):
@@ -1263,6 +1312,15 @@ def nontrivial(case, obs):
     return sum(1 for o in obs["steps"] if o["outcome"] in ("fail", "cancel", "refused")) >= 1
 
 
+OWN_FAIL = set()
+
+
+def args_key(case):
+    import json
+
+    return json.dumps([case["op"], case["vol"], case.get("args")], sort_keys=True)
+
+
 def run(ctx, only=None):
     cases = only if only is not None else gen_cases(ctx)
     evaluated = []
@@ -1275,6 +1333,10 @@ def run(ctx, only=None):
         evaluated.append((case, obs, len(lines), len(ml)))
         lines += ml
     answers = ctx.lean(lines)
+    for case, obs, _s, _c in evaluated:
+        if case["family"] == "single" and case.get("args") is not None and not case["fault"] \
+                and not case["foreign"] and str(obs.get("outcome", "")).startswith("err:"):
+            OWN_FAIL.add(args_key(case))
     for case, obs, start, cnt in evaluated:
         fam = case["family"]
         ctx.note("family:" + fam)
